@@ -553,6 +553,7 @@ def run(ctx):
             "events": [list(e) for e in events],
             "probes": PROBES,
             "bfs": stats,
+            "states": sum(st["bfs_states"] for st in stats.values()),
         },
         "exhaustive": not capped,
         "assumptions": [
